@@ -575,6 +575,25 @@ pub fn multi(tier: &str, seed: u64) -> Vec<MultiProgram> {
             out.push(MultiProgram { ma, arenas: vec![moved, pb.clone()], threads: vec![0, 0], schedule: vec![], tag: "handover".into() });
         }
     }
+    // a refusal of the global allocator in one arena must not change what another arena does
+    {
+        use Op::*;
+        let new = New { cap: None, fallible: false };
+        let grow: Vec<Op> = std::iter::once(new.clone()).chain((0..40).map(|_| l(1000, 8))).collect();
+        let refused = vec![new.clone(), Fault { kind: 4, k: 0 }, l(40000, 1), Fault { kind: 0, k: 0 }, l(8, 8)];
+        let refused2 = vec![new.clone(), l(100, 1), Fault { kind: 3, k: 600 }, l(5000, 1), l(700, 1), Fault { kind: 0, k: 0 }, Reset];
+        for &ma in &MAS {
+            for r in [&refused, &refused2] {
+                // A fails first, then B grows; and interleaved
+                let n = r.len() + 1;
+                let sched: Vec<usize> = std::iter::repeat(0).take(n).chain(std::iter::repeat(1).take(grow.len() + 1)).collect();
+                out.push(MultiProgram { ma, arenas: vec![r.clone(), grow.clone()], threads: vec![0, 0], schedule: sched, tag: "refusal".into() });
+                let alt: Vec<usize> = (0..(n + grow.len() + 1)).map(|i| i % 2).collect();
+                out.push(MultiProgram { ma, arenas: vec![r.clone(), grow.clone()], threads: vec![0, 0], schedule: alt, tag: "refusal".into() });
+                out.push(MultiProgram { ma, arenas: vec![r.clone(), grow.clone()], threads: vec![1, 2], schedule: vec![], tag: "refusal-threads".into() });
+            }
+        }
+    }
     // many threads, random short programs
     for _ in 0..if thorough { 200 } else { 30 } {
         let nt = rng.gen_range(2..5);
